@@ -49,15 +49,28 @@ import (
 // methods that never touch the lock themselves have no critical-section boundary and are judged
 // where they are called.
 
+// Clause #order (C01, C36, C35 in ingest/compact; C40 elsewhere): inside one critical section,
+// when a function stores into a guarded map M at key k (`v.paths[id] = state`) and calls an
+// owner method that (transitively) reads M (`v.validateQueue(fs)` → validateArea reads v.paths),
+// and that call is decided by a lookup of M at the same key k made in the function
+// (`if _, ok := v.paths[id]; ok { validateQueue = true }` … `if validateQueue { drain }`), the
+// drain is triggered by the arrival of k and has to see k's new state: a store M[k] = … must
+// precede the call on every path to it (the store's node dominates the call's, no release of the
+// lock between them). Key pkg.(Recv).Func#order, reported with the lookup, the store and the
+// call. Instance today: ingest/compact.(*Validator).ValidatePath (store first, then drain).
+// Functions without such a triple (ValidateArea stores through a helper, not directly) are not
+// instances. Not covered: a store made inside the called method itself.
+
 type iOwnerMethods struct {
-	reads  map[*types.Func]bool // the method (transitively) reads a guarded map of its receiver
-	writes map[*types.Func]bool // the method (transitively) changes a field of its receiver
+	reads   map[*types.Func]bool                // the method (transitively) reads a guarded map of its receiver
+	readsOf map[*types.Func]map[*types.Var]bool // … and which ones
+	writes  map[*types.Func]bool                // the method (transitively) changes a field of its receiver
 }
 
 // iCTAOwnerMethods computes, for the methods of a guarded type, whether they read its guarded
 // maps and whether they change its fields, through calls of other methods on the same receiver.
 func iCTAOwnerMethods(c *Ctx, gt *iGuardedType, fields map[*types.Var]bool) *iOwnerMethods {
-	om := &iOwnerMethods{reads: map[*types.Func]bool{}, writes: map[*types.Func]bool{}}
+	om := &iOwnerMethods{reads: map[*types.Func]bool{}, readsOf: map[*types.Func]map[*types.Var]bool{}, writes: map[*types.Func]bool{}}
 	type mdecl struct {
 		fn   *types.Func
 		fd   *ast.FuncDecl
@@ -86,6 +99,10 @@ func iCTAOwnerMethods(c *Ctx, gt *iGuardedType, fields map[*types.Var]bool) *iOw
 				if s := info.Selections[x]; s != nil && s.Kind() == types.FieldVal && onRecv(x.X) {
 					if v, ok := s.Obj().(*types.Var); ok && gt.maps[v] {
 						om.reads[m.fn] = true
+						if om.readsOf[m.fn] == nil {
+							om.readsOf[m.fn] = map[*types.Var]bool{}
+						}
+						om.readsOf[m.fn][v] = true
 					}
 				}
 			case *ast.AssignStmt:
@@ -117,6 +134,14 @@ func iCTAOwnerMethods(c *Ctx, gt *iGuardedType, fields map[*types.Var]bool) *iOw
 			for _, callee := range calls[m.fn] {
 				if om.reads[callee] && !om.reads[m.fn] {
 					om.reads[m.fn], changed = true, true
+				}
+				for v := range om.readsOf[callee] {
+					if om.readsOf[m.fn] == nil {
+						om.readsOf[m.fn] = map[*types.Var]bool{}
+					}
+					if !om.readsOf[m.fn][v] {
+						om.readsOf[m.fn][v], changed = true, true
+					}
 				}
 				if om.writes[callee] && !om.writes[m.fn] {
 					om.writes[m.fn], changed = true, true
@@ -601,80 +626,213 @@ func iCTAStaleFunc(c *Ctx, p *packages.Package, fd *ast.FuncDecl, mapOwner, lock
 	}
 
 	name := c.FuncName(p, fd)
-	ob := Obligation{Key: name + "#stale", Pos: c.Position(fd.Pos())}
 	if mixed {
-		ob.Status, ob.Detail = Undecided, "the function locks several instances of guarded types: the critical sections cannot be told apart"
-		return []Obligation{ob}
+		return []Obligation{{Key: name + "#stale", Pos: c.Position(fd.Pos()), Status: Undecided,
+			Detail: "the function locks several instances of guarded types: the critical sections cannot be told apart"}}
 	}
 	sort.SliceStable(acts, func(i, j int) bool { return acts[i].stmt.Pos() < acts[j].stmt.Pos() })
-	var okNotes []string
-	for _, a := range acts {
-		aloc, ok := findNode(g, a.stmt)
-		if !ok {
-			continue
-		}
-		var rs []*iStaleRead
-		for r := range a.by {
-			rs = append(rs, r)
-		}
-		sort.SliceStable(rs, func(i, j int) bool { return rs[i].node.Pos() < rs[j].node.Pos() })
-		for _, r := range rs {
-			rloc, ok := findNode(g, r.node)
+	stale := func() Obligation {
+		ob := Obligation{Key: name + "#stale", Pos: c.Position(fd.Pos())}
+		var okNotes []string
+		for _, a := range acts {
+			aloc, ok := findNode(g, a.stmt)
 			if !ok {
 				continue
 			}
-			rel := releaseBetween(rloc, aloc)
-			if rel == nil {
-				continue
+			var rs []*iStaleRead
+			for r := range a.by {
+				rs = append(rs, r)
 			}
-			// a fresh read of the same map (and key) that also decides the action
-			fresh := false
-			for _, r2 := range rs {
-				if r2 == r {
-					continue
-				}
-				sameMap := (r.m == nil && r2.m == nil && r.text == r2.text) || (r.m != nil && r2.m != nil && sameExpr(info, r.m, r2.m))
-				sameKey := (r.key == nil && r2.key == nil) || (r.key != nil && r2.key != nil && sameExpr(info, r.key, r2.key))
-				if !sameMap || !sameKey {
-					continue
-				}
-				r2loc, ok := findNode(g, r2.node)
+			sort.SliceStable(rs, func(i, j int) bool { return rs[i].node.Pos() < rs[j].node.Pos() })
+			for _, r := range rs {
+				rloc, ok := findNode(g, r.node)
 				if !ok {
 					continue
 				}
-				if reach(r2loc)[pos{aloc.b, aloc.i}] && releaseBetween(r2loc, aloc) == nil {
-					fresh = true
+				rel := releaseBetween(rloc, aloc)
+				if rel == nil {
+					continue
+				}
+				// a fresh read of the same map (and key) that also decides the action
+				fresh := false
+				for _, r2 := range rs {
+					if r2 == r {
+						continue
+					}
+					sameMap := (r.m == nil && r2.m == nil && r.text == r2.text) || (r.m != nil && r2.m != nil && sameExpr(info, r.m, r2.m))
+					sameKey := (r.key == nil && r2.key == nil) || (r.key != nil && r2.key != nil && sameExpr(info, r.key, r2.key))
+					if !sameMap || !sameKey {
+						continue
+					}
+					r2loc, ok := findNode(g, r2.node)
+					if !ok {
+						continue
+					}
+					if reach(r2loc)[pos{aloc.b, aloc.i}] && releaseBetween(r2loc, aloc) == nil {
+						fresh = true
+					}
+				}
+				if fresh {
+					okNotes = append(okNotes, fmt.Sprintf("%s at %s is decided again by a fresh read of %s in its own critical section", a.act.text, c.Position(a.stmt.Pos()), r.text))
+					continue
+				}
+				ob.Status = Violation
+				ob.Pos = c.Position(a.stmt.Pos())
+				ob.Detail = fmt.Sprintf("%s at %s is decided by the read of %s at %s, but %s at %s releases the lock in between and nothing reads it again before the action: "+
+					"another goroutine can change %s in the gap and the action is taken or skipped on a stale answer",
+					a.act.text, c.Position(a.stmt.Pos()), r.text, c.Position(r.node.Pos()), nodeText(c.Fset, rel), c.Position(rel.Pos()), strings.TrimSuffix(r.text, "()"))
+				ob.Path = []string{
+					"read:   " + c.Position(r.node.Pos()) + " " + r.text,
+					"unlock: " + c.Position(rel.Pos()) + " " + nodeText(c.Fset, rel),
+					"action: " + c.Position(a.stmt.Pos()) + " " + a.act.text,
+				}
+				return ob
+			}
+		}
+		ob.Status = OK
+		nDecided := 0
+		for _, a := range acts {
+			if len(a.by) > 0 {
+				nDecided++
+			}
+		}
+		ob.Detail = fmt.Sprintf("%d reads of guarded state, %d actions on %s's state, %d of them decided by a read: none is separated from its deciding read by a release of the lock", len(reads), len(acts), types.ExprString(base), nDecided)
+		if len(okNotes) > 0 {
+			ob.Detail += " (" + strings.Join(iUniqueStrings(okNotes), "; ") + ")"
+		}
+		return ob
+	}
+
+	// clause #order: a drain that is triggered by the arrival of key k must see k's new state
+	order := func() []Obligation {
+		type mapStore struct {
+			stmt  *ast.AssignStmt
+			field *types.Var
+			key   ast.Expr
+		}
+		var stores []mapStore
+		inspectShallow(fd.Body, func(n ast.Node) bool {
+			as, ok := n.(*ast.AssignStmt)
+			if !ok || as.Tok != token.ASSIGN {
+				return true
+			}
+			for _, l := range as.Lhs {
+				ix, ok := ast.Unparen(l).(*ast.IndexExpr)
+				if !ok {
+					continue
+				}
+				sel, ok := ast.Unparen(ix.X).(*ast.SelectorExpr)
+				if !ok || !isBase(sel.X) {
+					continue
+				}
+				if f := fieldOf(sel); f != nil && owner.maps[f] {
+					stores = append(stores, mapStore{as, f, ix.Index})
 				}
 			}
-			if fresh {
-				okNotes = append(okNotes, fmt.Sprintf("%s at %s is decided again by a fresh read of %s in its own critical section", a.act.text, c.Position(a.stmt.Pos()), r.text))
+			return true
+		})
+		if len(stores) == 0 {
+			return nil
+		}
+		precedes := func(sloc, aloc nodeLoc) bool {
+			if sloc.b == aloc.b {
+				return sloc.i < aloc.i
+			}
+			return dom[aloc.b][sloc.b]
+		}
+		ob := Obligation{Key: name + "#order", Pos: c.Position(fd.Pos())}
+		var okNotes []string
+		for _, a := range acts {
+			aloc, ok := findNode(g, a.stmt)
+			if !ok {
 				continue
 			}
-			ob.Status = Violation
-			ob.Pos = c.Position(a.stmt.Pos())
-			ob.Detail = fmt.Sprintf("%s at %s is decided by the read of %s at %s, but %s at %s releases the lock in between and nothing reads it again before the action: "+
-				"another goroutine can change %s in the gap and the action is taken or skipped on a stale answer",
-				a.act.text, c.Position(a.stmt.Pos()), r.text, c.Position(r.node.Pos()), nodeText(c.Fset, rel), c.Position(rel.Pos()), strings.TrimSuffix(r.text, "()"))
-			ob.Path = []string{
-				"read:   " + c.Position(r.node.Pos()) + " " + r.text,
-				"unlock: " + c.Position(rel.Pos()) + " " + nodeText(c.Fset, rel),
-				"action: " + c.Position(a.stmt.Pos()) + " " + a.act.text,
+			// the owner methods called by the action and the guarded maps they read
+			type drain struct {
+				call *ast.CallExpr
+				fn   *types.Func
 			}
-			return []Obligation{ob}
+			var drains []drain
+			inspectShallow(a.stmt, func(x ast.Node) bool {
+				if call, ok := x.(*ast.CallExpr); ok {
+					if sel, ok := ast.Unparen(call.Fun).(*ast.SelectorExpr); ok && isBase(sel.X) {
+						if f := calleeFunc(info, call); f != nil && len(om.readsOf[f.Origin()]) > 0 {
+							drains = append(drains, drain{call, f.Origin()})
+						}
+					}
+				}
+				return true
+			})
+			if len(drains) == 0 {
+				continue
+			}
+			var rs []*iStaleRead
+			for r := range a.by {
+				rs = append(rs, r)
+			}
+			sort.SliceStable(rs, func(i, j int) bool { return rs[i].node.Pos() < rs[j].node.Pos() })
+			for _, d := range drains {
+				for _, r := range rs {
+					if r.m == nil || r.key == nil {
+						continue
+					}
+					rsel, _ := ast.Unparen(r.m).(*ast.SelectorExpr)
+					if rsel == nil {
+						continue
+					}
+					field := fieldOf(rsel)
+					if field == nil || !om.readsOf[d.fn][field] {
+						continue
+					}
+					rloc, ok := findNode(g, r.node)
+					if !ok || releaseBetween(rloc, aloc) != nil {
+						continue // another critical section: clause #stale
+					}
+					var same []mapStore
+					for _, st := range stores {
+						if st.field == field && sameExpr(info, st.key, r.key) {
+							same = append(same, st)
+						}
+					}
+					if len(same) == 0 {
+						continue
+					}
+					// an instance: lookup of M[k] decides the call of a reader of M, and M[k] is stored
+					good := false
+					for _, st := range same {
+						sloc, ok := findNode(g, st.stmt)
+						if ok && precedes(sloc, aloc) && releaseBetween(sloc, aloc) == nil {
+							good = true
+							okNotes = append(okNotes, fmt.Sprintf("%s at %s is triggered by the lookup %s at %s and runs after the store %s at %s",
+								nodeText(c.Fset, d.call), c.Position(d.call.Pos()), r.text, c.Position(r.node.Pos()), nodeText(c.Fset, st.stmt), c.Position(st.stmt.Pos())))
+						}
+					}
+					if good {
+						continue
+					}
+					st := same[0]
+					ob.Status = Violation
+					ob.Pos = c.Position(d.call.Pos())
+					ob.Detail = fmt.Sprintf("%s at %s reads %s.%s and is triggered by the lookup of %s at %s (the arrival of that key), but the store %s at %s does not precede it on every path: "+
+						"the call still sees the key's old state, so whatever was waiting for exactly this key is not released by this pass",
+						nodeText(c.Fset, d.call), c.Position(d.call.Pos()), types.ExprString(base), field.Name(), r.text, c.Position(r.node.Pos()), nodeText(c.Fset, st.stmt), c.Position(st.stmt.Pos()))
+					ob.Path = []string{
+						"lookup: " + c.Position(r.node.Pos()) + " " + r.text,
+						"store:  " + c.Position(st.stmt.Pos()) + " " + nodeText(c.Fset, st.stmt),
+						"call:   " + c.Position(d.call.Pos()) + " " + nodeText(c.Fset, d.call) + " (reads " + types.ExprString(base) + "." + field.Name() + ")",
+					}
+					return []Obligation{ob}
+				}
+			}
 		}
-	}
-	ob.Status = OK
-	nDecided := 0
-	for _, a := range acts {
-		if len(a.by) > 0 {
-			nDecided++
+		if len(okNotes) == 0 {
+			return nil
 		}
+		ob.Status = OK
+		ob.Detail = strings.Join(iUniqueStrings(okNotes), "; ")
+		return []Obligation{ob}
 	}
-	ob.Detail = fmt.Sprintf("%d reads of guarded state, %d actions on %s's state, %d of them decided by a read: none is separated from its deciding read by a release of the lock", len(reads), len(acts), types.ExprString(base), nDecided)
-	if len(okNotes) > 0 {
-		ob.Detail += " (" + strings.Join(iUniqueStrings(okNotes), "; ") + ")"
-	}
-	return []Obligation{ob}
+	return append([]Obligation{stale()}, order()...)
 }
 
 var _ = token.NoPos
